@@ -10,7 +10,7 @@
    nesting by evaluating the executable relation (IsoCheck.embed_check) in coqc on the two real tables.
    Known refusals F10 / F12 are known findings. *)
 From Coq Require Import List.
-From Tawazi Require Import Graph Sched SchedInv Dataflow DataflowFacts Terms Iso IsoFacts IsoCheck IsoCheckFacts.
+From Tawazi Require Import Args ArgsFacts Graph Sched SchedInv Dataflow DataflowFacts Terms Iso IsoFacts IsoCheck IsoCheckFacts.
 Import ListNotations.
 
 Section C20.
@@ -56,3 +56,17 @@ Theorem C20_embed_check_den specs1 specs2 c1 c2 res1 res2 rho_l bound :
     den term TNone t_truthy t_index (spec_tbl specs1) (cfg_bind c1 bound) (res_bind specs2 c2 res2 rho_l bound res1) n.
 Proof. exact (embed_check_den specs1 specs2 c1 c2 res1 res2 rho_l bound). Qed.
 Print Assumptions C20_embed_check_den.
+
+(* an explicitly passed argument wins over the parameter's default — whatever its value, None included — and
+   a parameter for which no argument is passed keeps its default *)
+Theorem C20_explicit_argument_wins (val : Type) (inputs : list nat) (args : list val) (res r : results val) (k i : nat) (a : val) :
+  NoDup inputs -> bind val res inputs args = Some r -> nth_error inputs k = Some i -> nth_error args k = Some a ->
+  lookup val r i = Some a.
+Proof. exact (bind_lookup_arg val inputs args res r k i a). Qed.
+Print Assumptions C20_explicit_argument_wins.
+
+Theorem C20_omitted_argument_keeps_default (val : Type) (inputs : list nat) (args : list val) (res r : results val) (k i : nat) :
+  NoDup inputs -> bind val res inputs args = Some r -> nth_error inputs k = Some i -> length args <= k ->
+  lookup val r i = lookup val res i.
+Proof. exact (bind_keeps_default val inputs args res r k i). Qed.
+Print Assumptions C20_omitted_argument_keeps_default.
